@@ -233,7 +233,11 @@ class APE:
         if n is None:
             return ("s", "?")
         if n["id"] in st.nodeval:
-            return st.nodeval[n["id"]]
+            v_ = st.nodeval[n["id"]]
+            if v_[0] == "?":
+                # a conditional expression whose branch was decided on this path: its value is the chosen operand's
+                return self.val(st, n["kids"][1 + v_[1]])
+            return v_
         k = n["k"]
         if "val" in n0 or ("val" in n and k != "DeclRefExpr"):
             return ("c", n0.get("val", n.get("val")))
@@ -813,7 +817,13 @@ class APE:
             self._switch(B, st, stack)
             return
         if B.cond is not None and len(succs) == 2:
-            lit = self.literal(st, B.cond)
+            cnode = B.cond
+            rc = strip(B.rawcond) if B.rawcond is not None else None
+            if rc is not None and rc["k"] == "BinaryOperator" and rc.get("op") in ("&&", "||") and rc["id"] in st.nodeval:
+                # the short-circuit operator was decided by its left operand on the way here (a do-while condition joins
+                # both ways of reaching it): its recorded value is the condition, not its right operand
+                cnode = rc
+            lit = self.literal(st, cnode)
             lop = None
             if B.termk == "BinaryOperator" and B.term is not None and B.term.get("op") in ("&&", "||"):
                 lop = B.term
@@ -825,6 +835,8 @@ class APE:
                     elif lop["op"] == "||" and lit:
                         st.nodeval[lop["id"]] = ("c", 1)
                 tgt = succs[0] if lit else succs[1]
+                if B.termk == "ConditionalOperator" and B.term is not None:
+                    st.nodeval[B.term["id"]] = ("?", 0 if lit else 1)
                 if tgt is None:
                     self._finish(st, "cut")
                 else:
@@ -849,6 +861,8 @@ class APE:
                         s2.nodeval[lop["id"]] = ("c", 0)
                     elif lop["op"] == "||" and ei == 0:
                         s2.nodeval[lop["id"]] = ("c", 1)
+                if B.termk == "ConditionalOperator" and B.term is not None:
+                    s2.nodeval[B.term["id"]] = ("?", ei)
                 s2.cons[atom] = frozenset(new)
                 s2.det = False
                 s2.atoms.setdefault(atom, nodes)
